@@ -82,7 +82,7 @@ CHECKS = {
                         "finddelay / gccphat / delayseq / peakloc are pure functions of their arguments and are NOT decided by this check"],
     },
     "C19": {
-        "batches": [("C19", "asan", 4, 6000, 2000000), ("C19", "tsan", 4, 2000, 300000)],
+        "batches": [("C19", "asan", 4, 6000, 1000000), ("C19", "tsan", 4, 2000, 200000)],
         "rule": ("one evaluation = one simulated run of 1-4 (thorough: 8) threads, each executing a prefix of generator calls (rand / randn / randi in every "
                  "overload incl. single-value and negative ranges, awgn real/complex), rng(s), and a suffix, interleaved by the scheduler at basic-block edges "
                  "(every thread is the other threads' disturbance: they seed and draw between any two of its draws). Non-trivial: >= 2 threads or >= 3 ops; "
@@ -225,13 +225,16 @@ def handle_violation(pid, rec, exe, engine, tier, log, shrink=True):
         recs, rc, tail = runner.exec_plan(exe, plan)
         r = recs[0] if recs else None
         obs.append((r.verdict, r.vclass, r.digest) if r else ("NONE", "", ""))
-    if obs[0] != obs[1] or obs[0][0] != "VIOL" or obs[0][1] != rec.vclass:
+    # verdict and class must reproduce; the result digest of a VIOLATING run may legitimately vary (a use-after-free reads garbage)
+    if obs[0][:2] != obs[1][:2] or obs[0][0] != "VIOL" or obs[0][1] != rec.vclass:
         hist = history_violation(pid, rec, exe, engine, tier, log, obs)
         if hist is not None:
             return hist
         print("INFRA-ERROR nondeterministic or non-reproducible violation seed=%d batch=%s replays=%s" % (rec.seed, (rec.verdict, rec.vclass, rec.digest), obs),
               flush=True)
         raise SystemExit(2)
+    if obs[0][2] != obs[1][2]:
+        log("  note: %s reproduces in both fresh-process replays, but the computed values differ between them (memory-unsafe behaviour)" % rec.vclass)
     sh = minimise.Shrinker(exe, plan, rec.vclass, max_execs=400 if shrink else 0)
     small = sh.run(pinned_sched=rec.sched if rec.nthr > 1 else None) if shrink else plan
     if shrink:
